@@ -364,6 +364,19 @@ def function_predicate(fn_node, symbol=None, aliases=None):
                 if stmt.value is None:
                     return ('const', False)
                 return bool_term(expand(stmt.value), symbol)
+            if isinstance(stmt, ast.For) and not stmt.orelse and len(stmt.body) == 1 and \
+                    isinstance(stmt.body[0], ast.If) and not stmt.body[0].orelse and \
+                    len(stmt.body[0].body) == 1 and \
+                    isinstance(stmt.body[0].body[0], ast.Return):
+                # for v in S: if c(v): return K   ==   if any(c(v) for v in S): return K
+                quantified = ast.Call(
+                    func=ast.Name(id='any', ctx=ast.Load()),
+                    args=[ast.GeneratorExp(elt=stmt.body[0].test, generators=[
+                        ast.comprehension(target=stmt.target, iter=stmt.iter, ifs=[],
+                                          is_async=0)])], keywords=[])
+                rewritten = ast.If(test=quantified, body=stmt.body[0].body, orelse=[])
+                return block([ast.fix_missing_locations(ast.copy_location(rewritten, stmt))]
+                             + stmts[index + 1:])
             if isinstance(stmt, ast.If):
                 cond = bool_term(expand(stmt.test), symbol)
                 rest = stmts[index + 1:]
